@@ -380,3 +380,54 @@ def _weak_args(expr, name):
                 continue
             strong = True
     return set() if strong else {name}
+
+
+
+@rule("C20.mutual-removal", ["C20"],
+      "removing a mutual link always removes the partner's half too: inside "
+      "the remove branch of sync_trait the reverse call depends on `mutual` "
+      "alone, not on what this side's table still contains")
+def mutual_removal(ctx, res):
+    repo = get_pyrepo(ctx)
+    mod = repo.module(HT)
+    fn = repo.func(HT, "HasTraits.sync_trait")
+    ps = [a.arg for a in fn.args.args]
+    rm_ifs = [n for n in fn.body if isinstance(n, ast.If)
+              and norm(n.test) == "remove"]
+    if not rm_ifs:
+        raise AnalysisError("sync_trait: `if remove:` branch not found")
+    blk = rm_ifs[0]
+    par = {}
+    for p_ in ast.walk(blk):
+        for c_ in ast.iter_child_nodes(p_):
+            par[id(c_)] = p_
+    calls = [c for c in ast.walk(blk) if isinstance(c, ast.Call)
+             and isinstance(c.func, ast.Attribute)
+             and c.func.attr == "sync_trait"]
+    res.instance("sync_trait:remove", mod.loc(blk), reverse_calls=len(calls))
+    if not res.oblige(len(calls) == 1, "sync_trait:remove:reverse-call",
+                      mod.loc(blk), "the remove branch does not call the "
+                      "partner's sync_trait(..., remove=True) exactly once"):
+        return
+    c = calls[0]
+    guards = []
+    node = c
+    while id(node) in par:
+        up = par[id(node)]
+        if isinstance(up, ast.If) and up is not blk:
+            guards.append(norm(up.test))
+        node = up
+    res.oblige(guards == ["mutual"], "sync_trait:remove:reverse-unconditional",
+               mod.loc(c),
+               f"the reverse removal is guarded by {guards}: it must depend "
+               f"on `mutual` alone - if this side's entry is already gone "
+               f"(one-way removal earlier, link created from the partner's "
+               f"side) the partner keeps propagating after the link was "
+               f"removed")
+    args = [norm(a) for a in c.args]
+    res.oblige(len(args) >= 5 and args[4] == "True" and args[3] == "False"
+               and args[1] == ps[0],
+               "sync_trait:remove:reverse-args", mod.loc(c),
+               f"reverse call is sync_trait({', '.join(args)}); expected "
+               f"(alias, self, trait_name, False, True)")
+    res.floor(1)
